@@ -100,6 +100,11 @@ def decode(
     except (TypeError, ValueError):
         raise InvalidPayloadError()
 
+    # https://www.rfc-editor.org/rfc/rfc7519#section-7.2
+    # the message MUST be a completely valid JSON object
+    if not isinstance(claims, dict):
+        raise InvalidPayloadError()
+
     return Token(header, claims)
 
 
